@@ -158,6 +158,17 @@ type recStore struct {
 	inBlock  bool // inside DBStore.ApplyBlock / RevertBlock
 	autoMid  bool // the store committed on its own (size/time threshold) inside the current block op
 	AutoFlushes int
+	pruneGate func()
+}
+
+// PruneBlock passes through to the store; pruneGate (concurrent driver) is a scheduling point in
+// the middle of Manager.PruneBlocks: on the correct code the manager's lock is held across it, so
+// yielding here can only delay other callers.
+func (s *recStore) PruneBlock(id types.BlockID) {
+	if g := s.pruneGate; g != nil {
+		g()
+	}
+	s.DBStore.PruneBlock(id)
 }
 
 // noteFlush is called by recDB for every commit that reaches the database.
@@ -234,6 +245,57 @@ type RNode struct {
 	Notifs int
 	nmu    sync.Mutex
 	Backend string
+	lis    map[string]*listener
+}
+
+// LisNames are the dynamic listeners of Chain.tla's `Lis`: "r.." register with OnReorg, "p.." with
+// OnPoolChange.
+var LisNames = []string{"r1", "r2", "p1"}
+
+type listener struct {
+	cancel func()
+	count  int
+}
+
+// Sub registers a fresh callback for listener name; Unsub calls the cancel function it got.
+func (n *RNode) Sub(name string) {
+	l := &listener{}
+	if name[0] == 'p' {
+		l.cancel = n.CM.OnPoolChange(func() { n.nmu.Lock(); l.count++; n.nmu.Unlock() })
+	} else {
+		l.cancel = n.CM.OnReorg(func(types.ChainIndex) { n.nmu.Lock(); l.count++; n.nmu.Unlock() })
+	}
+	n.nmu.Lock()
+	if n.lis == nil {
+		n.lis = map[string]*listener{}
+	}
+	n.lis[name] = l
+	n.nmu.Unlock()
+}
+
+func (n *RNode) Unsub(name string) {
+	n.nmu.Lock()
+	l := n.lis[name]
+	delete(n.lis, name)
+	n.nmu.Unlock()
+	if l != nil {
+		l.cancel()
+	}
+}
+
+// LisCounts is Chain.tla's `lis`: -1 for a listener that is not registered, else the number of
+// times its callback ran since it registered.
+func (n *RNode) LisCounts() map[string]int {
+	n.nmu.Lock()
+	defer n.nmu.Unlock()
+	out := map[string]int{}
+	for _, name := range LisNames {
+		out[name] = -1
+		if l := n.lis[name]; l != nil {
+			out[name] = l.count
+		}
+	}
+	return out
 }
 
 var boltSeq atomic.Int64
@@ -435,6 +497,7 @@ type Projection struct {
 	Mem      int      `json:"mem"`
 	MinReorg int      `json:"minreorg"`
 	Notif    int      `json:"notif"`
+	Lis      map[string]int `json:"lis"`
 	Led      LedProj  `json:"led"`
 	StateOK  bool     `json:"stateOk"` // reported tip state is byte-equal to the linear ledger's
 	// OrderDiverged: a block on the best chain was applied with a supplement listing the expiring
@@ -510,6 +573,7 @@ func (n *RNode) Project(t *mat.Tree, nm *mat.Names, maxH int) Projection {
 	n.nmu.Lock()
 	p.Notif = n.Notifs
 	n.nmu.Unlock()
+	p.Lis = n.LisCounts()
 	if nd := t.Node(max(p.Mem, 1)); p.Mem != 0 && nd.L != nil {
 		p.StateOK = bytes.Equal(mat.StateBytes(n.CM.TipState()), mat.StateBytes(nd.L.CS)) && n.CM.TipState().Index == nd.L.CS.Index
 	}
